@@ -47,6 +47,11 @@ func genAppCase(t *Tape) *appCase {
 			Action: CB{Kind: CBReturn}, Tag: lvl.Tag + ".broken"})
 		return &appCase{Kind: "tree-help-with-broken-sub-command", App: &app, Argv: c.Argv, Stream: c.Stream, Desc: c.Describe()}
 	}
+	if t.Draw(8) == 0 {
+		// several options behind OPTIONS / a folded group / listed one by one, folded on the command line, some env-backed
+		m := genMulti(t)
+		return &appCase{Kind: "multi-container", App: m.App, Argv: m.Argv, Env: m.Env, Desc: m.Describe()}
+	}
 	switch t.Weighted(3, 2, 2, 4, 2, 2) {
 	case 0:
 		c := c05Prop{}.Gen(t, &c20TreePhase).(*c05Case)
@@ -81,6 +86,18 @@ func genSpecApp(t *Tape) *appCase {
 	ds := genDecls(t, 3)
 	node := genSpec(t, ds, 2, 2)
 	s := genSentence(t, node, ds, 2)
+	if t.Draw(2) == 0 {
+		s.foldAdjacent(t, ds)
+	}
+	if len(ds.Opts) >= 2 && t.Draw(6) == 0 {
+		// an abbreviation of two long names of equal length: no option at all
+		if _, l0 := optNames(ds.Opts[0]); l0 == "--alpha" {
+			if _, l1 := optNames(ds.Opts[1]); l1 == "--alpes" {
+				k := t.Draw(len(s.toks) + 1)
+				s.toks = append(s.toks[:k:k], append([]string{[]string{"--alp=1", "--al", "--alp", "--al=x"}[t.Draw(4)]}, s.toks[k:]...)...)
+			}
+		}
+	}
 	root := &CmdDecl{Name: "app", Spec: node.String(), Decls: ds.All(), Action: CB{Kind: CBReturn}}
 	app := &AppDecl{Root: root, Policy: policies[t.Draw(3)]}
 	app.Finish()
@@ -366,6 +383,18 @@ func (c20Prop) Gen(t *Tape, ph *PhaseCfg) Case {
 		return c
 	}
 	c.Mode = "concurrent"
+	if t.Draw(20) == 0 {
+		// two applications that each end in an Exit with a status of their own, compared across order histories
+		for _, code := range []int{3, 4} {
+			cc := c05Prop{}.Gen(t, &c20TreePhase).(*c05Case)
+			leaf := cc.Tree.Path[len(cc.Tree.Path)-1]
+			leaf.Action = CB{Kind: CBExit, ExitCode: code + t.Draw(2)*10}
+			c.Apps = append(c.Apps, &appCase{Kind: "tree-exits", App: cc.Tree.App, Argv: cc.Argv, Desc: cc.Describe()})
+		}
+		c.Strategy = t.Draw(numStrats)
+		c.Fresh = true
+		return c
+	}
 	n := 2 + t.Draw(5)
 	for i := 0; i < n; i++ {
 		if i > 0 && t.Draw(5) == 0 {
